@@ -72,7 +72,23 @@ EqBad(r) ==
      \/ (c = "symmetric" /\ r.ab # r.ba)
      \/ (c = "value" /\ ~DumpDups(r.da) /\ ~DumpDups(r.db) /\ r.ab # EqDump(r.da, r.db))}
 
-EventBad(r) == CASE r.ev = "de" -> DeBad(r) [] r.ev = "conv" -> ConvBad(r) [] r.ev = "eq" -> EqBad(r) [] OTHER -> {"unknown-event"}
+\* a DOM value against a Rust primitive p of kind i64 / u64 / f64 / bool / str.  v1 = to_value(p), v2 = parse(to_string(p)),
+\* q another primitive of the same kind, v3 = parse(to_string(r)) for a primitive r of any kind.
+JType(k) == IF k \in {"i64", "u64", "f64"} THEN "num" ELSE k
+EqPrimBad(e) ==
+  IF e.panic THEN {"panic"}
+  ELSE LET r == e.r  exact == e.kind \in {"i64", "u64", "bool", "str"} /\ e.rkind \in {"i64", "u64", "bool", "str"} IN
+  {c \in {"prim-tovalue", "prim-parsed", "prim-distinct", "prim-symmetric", "prim-cross", "prim-same", "prim-exact"} :
+     \/ (c = "prim-tovalue" /\ ~(r.a1 /\ r.a2))                  \* to_value(p) == p, both argument orders
+     \/ (c = "prim-parsed" /\ ~(r.b1 /\ r.b2))                   \* parse(to_string(p)) == p
+     \/ (c = "prim-distinct" /\ r.c # r.pq)                      \* to_value(p) == q  exactly when  p == q
+     \/ (c = "prim-symmetric" /\ r.d1 # r.d2)
+     \/ (c = "prim-cross" /\ JType(e.kind) # JType(e.rkind) /\ r.d1)   \* a number never equals a string or a boolean ...
+     \/ (c = "prim-same" /\ e.kind = e.rkind /\ e.ptext = e.rtext /\ ~r.d1)
+     \* integers, booleans and strings have one canonical text: equal exactly when the texts are equal
+     \/ (c = "prim-exact" /\ exact /\ r.d1 # (e.ptext = e.rtext /\ JType(e.kind) = JType(e.rkind)))}
+
+EventBad(r) == CASE r.ev = "de" -> DeBad(r) [] r.ev = "conv" -> ConvBad(r) [] r.ev = "eq" -> EqBad(r) [] r.ev = "eqprim" -> EqPrimBad(r) [] OTHER -> {"unknown-event"}
 Init == l = 1
 Next == /\ l <= Len(Rec)
         /\ LET bad == EventBad(Rec[l]) IN bad \subseteq Tolerated /\ (bad # {} => PrintT(<<"TOLERATED", l, ToJson(bad)>>))
